@@ -5,6 +5,7 @@ import (
 	"encoding/hex"
 	"fmt"
 	"os"
+	"sort"
 	"strings"
 
 	gqlparser "github.com/vektah/gqlparser/v2"
@@ -232,7 +233,21 @@ func c10Check(x *core.Ctx, c *core.Case) {
 		}
 		return doc, serializeErrs(validator.Validate(s, doc))
 	}
+	before := ""
+	if core.HashString(dsrc)%3 == 0 {
+		before = c10SchemaOutline(schema)
+	}
 	doc, first := validate(schema)
+	if before != "" {
+		// the schema is an input: what a validation leaves in it (a field appended, a list of possible types filtered in
+		// place) is history for every later validation with that schema object
+		x.Count("schemas_compared_before_and_after_validation")
+		if after := c10SchemaOutline(schema); after != before {
+			da, db := model.FirstDiff(after, before)
+			x.Violate("schema-rewritten-by-validation", da, "before the validation: "+db)
+			return
+		}
+	}
 	if os.Getenv("VERIF_C10_DUMP") != "" {
 		fmt.Fprintln(os.Stderr, "C10-DUMP\n"+first)
 	}
@@ -335,4 +350,58 @@ func c10Finish(x *core.Ctx, merged *core.Result) {
 		}
 	}
 	merged.Counts["cases_compared_across_processes"] = int64(len(byCase))
+}
+
+// c10SchemaOutline lists what a validation reads from a schema, in the order the schema holds it: every type with its
+// fields (name, type, arguments), enum values, interfaces and members, the possible types and implemented types of every
+// name, the directives with their arguments and locations, the root types.
+func c10SchemaOutline(s *ast.Schema) string {
+	var b strings.Builder
+	names := make([]string, 0, len(s.Types))
+	for n := range s.Types {
+		names = append(names, n)
+	}
+	sort.Strings(names)
+	for _, n := range names {
+		d := s.Types[n]
+		fmt.Fprintf(&b, "type %s %s impl=%v members=%v\n", d.Kind, n, d.Interfaces, d.Types)
+		for _, f := range d.Fields {
+			fmt.Fprintf(&b, "  %s: %s (", f.Name, f.Type.String())
+			for _, a := range f.Arguments {
+				fmt.Fprintf(&b, "%s: %s,", a.Name, a.Type.String())
+			}
+			fmt.Fprintf(&b, ") dirs=%d\n", len(f.Directives))
+		}
+		for _, ev := range d.EnumValues {
+			fmt.Fprintf(&b, "  = %s\n", ev.Name)
+		}
+		b.WriteString("  possible:")
+		for _, p := range s.PossibleTypes[n] {
+			b.WriteString(" " + p.Name)
+		}
+		b.WriteString("\n  implements:")
+		for _, p := range s.Implements[n] {
+			b.WriteString(" " + p.Name)
+		}
+		b.WriteString("\n")
+	}
+	dn := make([]string, 0, len(s.Directives))
+	for n := range s.Directives {
+		dn = append(dn, n)
+	}
+	sort.Strings(dn)
+	for _, n := range dn {
+		d := s.Directives[n]
+		fmt.Fprintf(&b, "directive @%s %v repeatable=%v (", n, d.Locations, d.IsRepeatable)
+		for _, a := range d.Arguments {
+			fmt.Fprintf(&b, "%s: %s,", a.Name, a.Type.String())
+		}
+		b.WriteString(")\n")
+	}
+	for _, r := range []*ast.Definition{s.Query, s.Mutation, s.Subscription} {
+		if r != nil {
+			b.WriteString("root " + r.Name + "\n")
+		}
+	}
+	return b.String()
 }
